@@ -3,11 +3,12 @@ import Driver.Cache
 import Driver.IHexOps
 import Driver.ImageOps
 import Driver.VersionOps
+import Driver.SuitOps
 /-! JSON-lines driver: one request object per line on stdin, one response per line on stdout.
 `{"op": name, ...}` → `{"ok": ...}` | `{"err": class}` | `{"bad": message}` (malformed request). -/
 open Lean Driver
 
-def handlers : List (String → Json → Option (M Json)) := [CacheOps.handle, IHexOps.handle, ImageOps.handle, VersionOps.handle]
+def handlers : List (String → Json → Option (M Json)) := [CacheOps.handle, IHexOps.handle, ImageOps.handle, VersionOps.handle, SuitOps.handle]
 
 def dispatch (j : Json) : Json :=
   match strField j "op" with
